@@ -127,6 +127,9 @@ func ParseRedeem(data []byte, lockredeemAbi string) (req *RedeemRequest, err err
 	if len(ss) == 0 {
 		return nil, errors.New("Transaction does not have the required input data")
 	}
+	if len(ss) < 2 {
+		return nil, errors.New("Transaction does not have the required input data")
+	}
 	if len(ss[1]) < 64 {
 		return nil, errors.New("Transaction data is invalid")
 	}
@@ -157,6 +160,10 @@ func DecodeTransaction(data []byte) (*types.Transaction, error) {
 	err := rlp.DecodeBytes(data, tx)
 	if err != nil {
 		return nil, errors.Wrap(err, "Unable to decode Bytes")
+	}
+	// every caller expects a call to a contract: a contract creation has no recipient to look at
+	if tx.To() == nil {
+		return nil, errors.New("Unable to decode Bytes: transaction has no recipient")
 	}
 
 	return tx, nil
